@@ -258,6 +258,44 @@ class StatSpace(Subspace):
                 bad = self._cmp(a, exp, allow_inf=True)
                 if bad:
                     res.fail("ratio", f"ratio mask={mtag}: {bad}")
+            # subset_ratio == agg over (subset & global) / agg over global
+            if masked:
+                res.execs += 1
+                allm = np.ones(n, dtype=bool)
+                osr = call(lambda: G_().subset_ratio(d.V, Mo, allm))
+                if osr.raised:
+                    res.fail("total", f"subset_ratio mask={mtag}: raised {osr.raised}")
+                else:
+                    allrows = {}
+                    for i, g in enumerate(d.gids):
+                        if g is not None:
+                            allrows.setdefault(g, []).append(i)
+                    exp = {}
+                    for g, idx in allrows.items():
+                        den = sum(d.py[i] for i in idx if d.py[i] is not None)
+                        if g in rows:
+                            num = sum(d.py[i] for i in rows[g] if d.py[i] is not None)
+                            exp[d.label_of(g)] = None if den == 0 else num / den
+                        else:
+                            exp[d.label_of(g)] = None
+                    got = dict(zip(osr.labels, next(iter(osr.values.values()))))
+                    bad = self._cmp(got, exp, allow_inf=True)
+                    if bad:
+                        res.fail("subset-ratio", f"subset_ratio mask={mtag}: {bad}")
+            # density of values: shares of the group sums
+            res.execs += 1
+            odv = call(lambda: G_().density(d.V, mask=Mo))
+            if odv.raised:
+                res.fail("total", f"density(values) mask={mtag}: raised {odv.raised}")
+            elif rows:
+                sums = {d.label_of(g): sum(d.py[i] for i in idx if d.py[i] is not None)
+                        for g, idx in rows.items()}
+                tot = sum(sums.values())
+                if tot != 0:
+                    got = dict(zip(odv.labels, next(iter(odv.values.values()))))
+                    bad = self._cmp(got, {l: 100.0 * v / tot for l, v in sums.items()})
+                    if bad:
+                        res.fail("density", f"density(values) mask={mtag}: {bad}")
             # density (single key): shares in percent, adding up to 100
             res.execs += 1
             od = call(lambda: G_().density(mask=Mo))
